@@ -7,6 +7,36 @@ are phrased in the length of the printed text, so that `parseFile`'s `2·|input|
 -/
 namespace Pcore.Syntax
 
+/-- a simple type name: an upper-case letter followed by word characters (no `::`) -/
+def TyName (n : Str) : Prop :=
+  ∃ c w, n = c :: w ∧ isUpper c = true ∧ ∀ d ∈ w, isWord d = true ∧ d ≠ ':' ∧ d ≠ runeError
+
+def startsRocket : List Sym → Bool
+  | .chr a :: .chr b :: _ => a = '=' && b = '>'
+  | _ => false
+
+/-- the continuations the printer produces after a value: the end of the text, `,` `]` `}` `)`, or ` =>` -/
+def follows : List Sym → Bool
+  | [] => true
+  | .chr c :: rest => c = ',' || c = ']' || c = '}' || c = ')' || (c = ' ' && startsRocket rest)
+  | .bad :: _ => false
+
+theorem stopOK_of_follows {k : List Sym} (h : follows k = true) : stopOK k = true := by
+  cases k with
+  | nil => rfl
+  | cons s tl =>
+    cases s with
+    | bad => simp [follows] at h
+    | chr c =>
+      simp only [follows, Bool.or_eq_true, decide_eq_true_eq, Bool.and_eq_true] at h
+      simp only [stopOK, Bool.or_eq_true, decide_eq_true_eq]
+      rcases h with (((h | h) | h) | h) | h
+      · simp [h]
+      · simp [h]
+      · simp [h]
+      · simp [h]
+      · simp [h.1]
+
 mutual
 /-- literal values whose leaves can be read back, relative to the oracles of `env` -/
 def Lit (env : Env) : Val → Prop
@@ -16,6 +46,8 @@ def Lit (env : Env) : Val → Prop
   | .regexp s => rxRep false s = true ∧ env.rxOK s = true
   | .arr vs => LitL env vs
   | .hash es => LitE env es
+  | .tyx n none => TyName n
+  | .tyx n (some ps) => TyName n ∧ ps ≠ [] ∧ LitL env ps
   | _ => True
 def LitL (env : Env) : List Val → Prop
   | [] => True
@@ -71,7 +103,9 @@ theorem cvt_noEntry (l : List Expr) (h : ∀ e ∈ l, e.noEntry = true) : cvt l 
     cases e <;> simp_all [cvt, Expr.noEntry]
 
 theorem exprOf_noEntry (v : Val) : (exprOf v).noEntry = true := by
-  cases v <;> simp [exprOf, Expr.noEntry]
+  cases v with
+  | tyx n ps => cases ps <;> simp [exprOf, Expr.noEntry]
+  | _ => simp [exprOf, Expr.noEntry]
 
 theorem exprsOf_noEntry (vs : List Val) : ∀ e ∈ exprsOf vs, e.noEntry = true := by
   induction vs with
@@ -108,7 +142,7 @@ theorem item_word (env : Env) (c : Char) (w : Str) (e : Expr) (k : List Sym) (fu
   simp only [hkw, after_eq]
 
 theorem item_scalar (env : Env) (v : Val) (hv : Lit env v) (k : List Sym) (hk : stopOK k = true) (fuel : Nat)
-    (hs : match v with | .arr _ => False | .hash _ => False | _ => True) :
+    (hs : match v with | .arr _ => False | .hash _ => False | .tyx _ _ => False | _ => True) :
     ∃ t st, readTok env (syms (printVal v) ++ k) = .ok (t, st) ∧
       parseItem env fuel t st = ItemRes env (exprOf v) k := by
   cases v with
@@ -147,17 +181,69 @@ theorem item_scalar (env : Env) (v : Val) (hv : Lit env v) (k : List Sym) (hk : 
     simp only [hv.2, if_true, after_eq, exprOf]
   | arr vs => exact absurd hs (by simp)
   | hash es => exact absurd hs (by simp)
+  | tyx n ps => exact absurd hs (by simp)
 
 /-! ### containers -/
 
 theorem syms_length (s : Str) : (syms s).length = s.length := by simp [syms]
 
-theorem stopOK_cons (c : Char) (k : List Sym) (h : c = ',' ∨ c = ']' ∨ c = '}' ∨ c = ')' ∨ c = ' ') :
-    stopOK (.chr c :: k) = true := by
-  rcases h with h | h | h | h | h <;> subst h <;> rfl
+theorem readTok_nil' (env : Env) : readTok env [] = .ok (⟨.eoi, []⟩, ⟨[], true, 0⟩) := by
+  simp [readTok, nextToken, nextTok]
+
+theorem follows_rbrack (k : List Sym) : follows (.chr ']' :: k) = true := rfl
+theorem follows_rcurly (k : List Sym) : follows (.chr '}' :: k) = true := rfl
+theorem follows_comma (k : List Sym) : follows (.chr ',' :: k) = true := rfl
+theorem follows_rocket (k : List Sym) : follows (.chr ' ' :: .chr '=' :: .chr '>' :: k) = true := rfl
+
+/-- after a value the next token never opens a bracket (so a bare type name stays bare) -/
+theorem follows_tok (env : Env) (k : List Sym) (h : follows k = true) :
+    ∃ tk st1, readTok env k = .ok (tk, st1) ∧ tk.k ≠ .lbrack ∧ tk.k ≠ .lcurly ∧ tk.k ≠ .lparen := by
+  cases k with
+  | nil => exact ⟨_, _, readTok_nil' env, by decide, by decide, by decide⟩
+  | cons s tl =>
+    cases s with
+    | bad => simp [follows] at h
+    | chr c =>
+      simp only [follows, Bool.or_eq_true, decide_eq_true_eq, Bool.and_eq_true] at h
+      rcases h with (((h | h) | h) | h) | h
+      · subst h
+        exact ⟨_, _, readTok_of_tok (nextToken_punct env.isLetter ',' .comma tl (by simp)), by decide, by decide, by decide⟩
+      · subst h
+        exact ⟨_, _, readTok_of_tok (nextToken_punct env.isLetter ']' .rbrack tl (by simp)), by decide, by decide, by decide⟩
+      · subst h
+        exact ⟨_, _, readTok_of_tok (nextToken_punct env.isLetter '}' .rcurly tl (by simp)), by decide, by decide, by decide⟩
+      · subst h
+        have : nextToken env.isLetter (.chr ')' :: tl) = .tok ⟨.rparen, [')']⟩ tl false := by
+          unfold nextToken; rw [nextTok]; simp [Sym.rune, runeError, startTok, punctTok, mk]
+        exact ⟨_, _, readTok_of_tok this, by decide, by decide, by decide⟩
+      · obtain ⟨hc, hr⟩ := h
+        subst hc
+        cases tl with
+        | nil => simp [startsRocket] at hr
+        | cons s1 tl1 =>
+          cases s1 with
+          | bad => simp [startsRocket] at hr
+          | chr a =>
+            cases tl1 with
+            | nil => simp [startsRocket] at hr
+            | cons s2 tl2 =>
+              cases s2 with
+              | bad => simp [startsRocket] at hr
+              | chr b =>
+                simp only [startsRocket, Bool.and_eq_true, decide_eq_true_eq] at hr
+                obtain ⟨rfl, rfl⟩ := hr
+                refine ⟨⟨.rocket, ['=', '>']⟩, ⟨tl2, false, 2⟩, ?_, by decide, by decide, by decide⟩
+                rw [readTok_blank]; exact readTok_of_tok (nextToken_rocket env.isLetter tl2)
+
+/-- a type name that is not followed by an opening bracket is a bare type -/
+theorem parseItem_name_bare (env : Env) (fuel : Nat) (n : Str) (st : PS) (h : follows st.rest = true) :
+    parseItem env fuel ⟨.name, n⟩ st = ItemRes env (.dtype n none) st.rest := by
+  obtain ⟨tk, st1, h1, h2, h3, h4⟩ := follows_tok env st.rest h
+  unfold parseItem ItemRes
+  simp only [h1, PR.bind]
 
 mutual
-theorem item_rt (env : Env) : (v : Val) → Lit env v → (k : List Sym) → stopOK k = true → (fuel : Nat) →
+theorem item_rt (env : Env) : (v : Val) → Lit env v → (k : List Sym) → follows k = true → (fuel : Nat) →
     2 * (printVal v).length ≤ fuel →
     ∃ t st, readTok env (syms (printVal v) ++ k) = .ok (t, st) ∧
       parseItem env fuel t st = ItemRes env (exprOf v) k
@@ -184,15 +270,41 @@ theorem item_rt (env : Env) : (v : Val) → Lit env v → (k : List Sym) → sto
       have hlit : LitE env es := by simpa [Lit] using hv
       rw [hash_rt env es hlit k hk f (by omega) _ [] (by simp [syms_append])]
       simp only [PR.bind, after_eq, List.reverse_nil, List.nil_append, exprOf]
-  | .undef, hv, k, hk, fuel, _ => item_scalar env _ hv k hk fuel trivial
-  | .dflt, hv, k, hk, fuel, _ => item_scalar env _ hv k hk fuel trivial
-  | .bool _, hv, k, hk, fuel, _ => item_scalar env _ hv k hk fuel trivial
-  | .int _, hv, k, hk, fuel, _ => item_scalar env _ hv k hk fuel trivial
-  | .float _ _, hv, k, hk, fuel, _ => item_scalar env _ hv k hk fuel trivial
-  | .str _, hv, k, hk, fuel, _ => item_scalar env _ hv k hk fuel trivial
-  | .regexp _, hv, k, hk, fuel, _ => item_scalar env _ hv k hk fuel trivial
+  | .tyx n none, hv, k, hk, fuel, _ => by
+    obtain ⟨c, w, rfl, hc, hw⟩ : TyName n := by simpa [Lit] using hv
+    refine ⟨⟨.name, c :: w⟩, ⟨k, false, (c :: w).length⟩, ?_, ?_⟩
+    · exact readTok_of_tok (nextToken_name env.isLetter c w k hc hw (identStop_of_stopOK (stopOK_of_follows hk)))
+    · rw [parseItem_name_bare env fuel (c :: w) ⟨k, false, (c :: w).length⟩ hk]
+      simp [exprOf]
+  | .tyx n (some ps), hv, k, hk, fuel, hf => by
+    obtain ⟨⟨c, w, rfl, hc, hw⟩, hne, hlit⟩ : TyName n ∧ ps ≠ [] ∧ LitL env ps := by simpa [Lit] using hv
+    simp only [printVal, List.length_cons, List.length_append, List.length_nil] at hf
+    obtain ⟨f, rfl⟩ : ∃ f, fuel = f + 1 := ⟨fuel - 1, by omega⟩
+    refine ⟨⟨.name, c :: w⟩, ⟨.chr '[' :: (syms (printVals ps ++ [']']) ++ k), false, (c :: w).length⟩, ?_, ?_⟩
+    · have := nextToken_name env.isLetter c w (.chr '[' :: (syms (printVals ps ++ [']']) ++ k)) hc hw (identStop_lbrack _)
+      simp only [printVal, syms_append, syms_cons, List.append_assoc, List.cons_append] at this ⊢
+      exact readTok_of_tok this
+    · unfold parseItem
+      simp only
+      rw [readTok_of_tok (nextToken_punct env.isLetter '[' .lbrack _ (by simp))]
+      simp only [PR.bind]
+      rw [arr_rt env ps hlit k hk f (by omega) _ [] (by simp) (by simp [syms_append])]
+      simp only [asArray, after_eq, List.reverse_nil, List.nil_append, exprOf]
+      rw [cvt_noEntry _ (exprsOf_noEntry ps)]
+      have hemp : (exprsOf ps).isEmpty = false := by
+        cases ps with
+        | nil => exact absurd rfl hne
+        | cons p ps' => simp [exprsOf]
+      simp [hemp]
+  | .undef, hv, k, hk, fuel, _ => item_scalar env _ hv k (stopOK_of_follows hk) fuel trivial
+  | .dflt, hv, k, hk, fuel, _ => item_scalar env _ hv k (stopOK_of_follows hk) fuel trivial
+  | .bool _, hv, k, hk, fuel, _ => item_scalar env _ hv k (stopOK_of_follows hk) fuel trivial
+  | .int _, hv, k, hk, fuel, _ => item_scalar env _ hv k (stopOK_of_follows hk) fuel trivial
+  | .float _ _, hv, k, hk, fuel, _ => item_scalar env _ hv k (stopOK_of_follows hk) fuel trivial
+  | .str _, hv, k, hk, fuel, _ => item_scalar env _ hv k (stopOK_of_follows hk) fuel trivial
+  | .regexp _, hv, k, hk, fuel, _ => item_scalar env _ hv k (stopOK_of_follows hk) fuel trivial
 
-theorem arr_rt (env : Env) : (vs : List Val) → LitL env vs → (k : List Sym) → stopOK k = true → (fuel : Nat) →
+theorem arr_rt (env : Env) : (vs : List Val) → LitL env vs → (k : List Sym) → follows k = true → (fuel : Nat) →
     2 * (printVals vs).length + 1 ≤ fuel → (st : PS) → (items : List Expr) → (∀ e ∈ items, e.noEntry = true) →
     readTok env st.rest = readTok env (syms (printVals vs ++ [']']) ++ k) →
     arrayLoop env fuel .rbrack st items none =
@@ -209,7 +321,7 @@ theorem arr_rt (env : Env) : (vs : List Val) → LitL env vs → (k : List Sym) 
     obtain ⟨f, rfl⟩ : ∃ f, fuel = f + 1 := ⟨fuel - 1, by omega⟩
     simp only [printVals] at hf hst
     have hv : Lit env v := hvs.1
-    obtain ⟨t, st1, h1, h2⟩ := item_rt env v hv (.chr ']' :: k) (stopOK_cons _ _ (by simp)) f (by omega)
+    obtain ⟨t, st1, h1, h2⟩ := item_rt env v hv (.chr ']' :: k) (by rfl) f (by omega)
     unfold arrayLoop
     rw [hst]
     simp only [syms_append, syms_cons, syms_nil, List.append_assoc, List.cons_append, List.nil_append] at h1 ⊢
@@ -222,7 +334,7 @@ theorem arr_rt (env : Env) : (vs : List Val) → LitL env vs → (k : List Sym) 
     have hv : Lit env v := hvs.1
     have hrest : LitL env (w :: ws) := hvs.2
     let X := syms (printVals (w :: ws) ++ [']']) ++ k
-    obtain ⟨t, st1, h1, h2⟩ := item_rt env v hv (.chr ',' :: .chr ' ' :: X) (stopOK_cons _ _ (by simp)) f (by omega)
+    obtain ⟨t, st1, h1, h2⟩ := item_rt env v hv (.chr ',' :: .chr ' ' :: X) (by rfl) f (by omega)
     have hrec := arr_rt env (w :: ws) hrest k hk f (by omega) ⟨.chr ' ' :: X, false, 1⟩ (exprOf v :: items)
       (by intro e he; simp only [List.mem_cons] at he; rcases he with rfl | he
           · exact exprOf_noEntry v
@@ -238,7 +350,7 @@ theorem arr_rt (env : Env) : (vs : List Val) → LitL env vs → (k : List Sym) 
     rw [hrec]
     simp [exprsOf]
 
-theorem hash_rt (env : Env) : (es : List (Val × Val)) → LitE env es → (k : List Sym) → stopOK k = true → (fuel : Nat) →
+theorem hash_rt (env : Env) : (es : List (Val × Val)) → LitE env es → (k : List Sym) → follows k = true → (fuel : Nat) →
     2 * (printEntries es).length + 1 ≤ fuel → (st : PS) → (items : List (Expr × Expr)) →
     readTok env st.rest = readTok env (syms (printEntries es ++ ['}']) ++ k) →
     hashLoop env fuel st items = .ok (items.reverse ++ entriesOf es, ⟨k, false, 1⟩)
@@ -257,8 +369,8 @@ theorem hash_rt (env : Env) : (es : List (Val × Val)) → LitE env es → (k : 
     have hvv : Lit env vv := hes.2.1
     let Y := syms (printVal vv) ++ (.chr '}' :: k)
     obtain ⟨t, st1, h1, h2⟩ := item_rt env kk hkk (.chr ' ' :: .chr '=' :: .chr '>' :: .chr ' ' :: Y)
-      (stopOK_cons _ _ (by simp)) f (by omega)
-    obtain ⟨t2, st3, h3, h4⟩ := item_rt env vv hvv (.chr '}' :: k) (stopOK_cons _ _ (by simp)) f (by omega)
+      (by rfl) f (by omega)
+    obtain ⟨t2, st3, h3, h4⟩ := item_rt env vv hvv (.chr '}' :: k) (by rfl) f (by omega)
     unfold hashLoop
     rw [hst]
     have htxt : syms (printVal kk ++ (" => ".toList ++ printVal vv) ++ ['}']) ++ k =
@@ -280,8 +392,8 @@ theorem hash_rt (env : Env) : (es : List (Val × Val)) → LitE env es → (k : 
     let X := syms (printEntries (e2 :: es) ++ ['}']) ++ k
     let Y := syms (printVal vv) ++ (.chr ',' :: .chr ' ' :: X)
     obtain ⟨t, st1, h1, h2⟩ := item_rt env kk hkk (.chr ' ' :: .chr '=' :: .chr '>' :: .chr ' ' :: Y)
-      (stopOK_cons _ _ (by simp)) f (by omega)
-    obtain ⟨t2, st3, h3, h4⟩ := item_rt env vv hvv (.chr ',' :: .chr ' ' :: X) (stopOK_cons _ _ (by simp)) f (by omega)
+      (by rfl) f (by omega)
+    obtain ⟨t2, st3, h3, h4⟩ := item_rt env vv hvv (.chr ',' :: .chr ' ' :: X) (by rfl) f (by omega)
     have hrec := hash_rt env (e2 :: es) hrest k hk f (by omega) ⟨.chr ' ' :: X, false, 1⟩
       ((exprOf kk, exprOf vv) :: items) (by simp only [readTok_blank]; rfl)
     unfold hashLoop
@@ -349,6 +461,19 @@ theorem first_tok_not_type (env : Env) (v : Val) (hv : Lit env v) (k : List Sym)
       simp only [printVal, syms_cons, List.cons_append]
       exact readTok_of_tok (nextToken_punct env.isLetter '{' .lcurly _ (by simp)))
     subst this; simp
+  | tyx n ps =>
+    cases ps with
+    | none =>
+      obtain ⟨c, w, rfl, hc, hw⟩ : TyName n := by simpa [Lit] using hv
+      have := inj (readTok_of_tok (nextToken_name env.isLetter c w k hc hw (identStop_of_stopOK hk)))
+      subst this; simp
+    | some ps =>
+      obtain ⟨⟨c, w, rfl, hc, hw⟩, _, _⟩ : TyName n ∧ ps ≠ [] ∧ LitL env ps := by simpa [Lit] using hv
+      have h' := nextToken_name env.isLetter c w (.chr '[' :: (syms (printVals ps ++ [']']) ++ k)) hc hw (identStop_lbrack _)
+      have := inj (show readTok env (syms (printVal (.tyx (c :: w) (some ps))) ++ k) = _ from by
+        simp only [printVal, syms_append, syms_cons, List.append_assoc, List.cons_append] at h' ⊢
+        exact readTok_of_tok h')
+      subst this; simp
 
 /-- **values**: the program-format text of a literal value parses back to that value -/
 theorem value_rt (env : Env) (v : Val) (hv : Lit env v) : parse env (syms (printVal v)) = .value (exprOf v) := by
